@@ -3,11 +3,11 @@ CONSTANTS
     BufCap = 3
     Ls = {0, 3}
     Ns = {0, 2}
-    Opts = {2, 3, 6}
-    Sizes = {1, 2}
+    Opts = {2, 6}
+    Sizes = {2}
     MaxSends = 4
-    MaxDay = 2
-    MaxRestarts = 1
+    MaxDay = 1
+    MaxRestarts = 0
     MaxCrash = 0
     MaxFault = 0
     MaxGzWrites = 1
